@@ -16,8 +16,11 @@ META = {
                    "evaluate) is located by its switch on the discriminant of garble_lang's Op; per Op variant the number of "
                    "Iterator::next sites on each stream in one iteration is computed and all walkers must agree: the random-share stream "
                    "advances exactly once for Input and And and never for Xor/Not, the AND-share / table-share / garbled-gate streams only "
-                   "for And; (C01.b) the batch-size methods of Context read only num_inputs / num_and_ops, every flush comparison is "
+                   "for And; (C01.b) every Context method a chunk size is computed from (found from the chunk consumers, not by name; "
+                   "transitively through delegating methods) reads only num_inputs / num_and_ops, every flush comparison is "
                    "`len >= bound` with a bound from such a method and every chunk_size_iter / chunks argument comes from the same methods; "
+                   "(C01.d) a register-indexed slot updated from its own previous value inside a loop (XOR of the peers' output mask shares) "
+                   "is visited once per register: the loop iterates a set, or a sorted and dedup-ed vector; "
                    "(C01.c) no literal is used as a party index (peer of a channel operation, xor_key, index into per-party vectors). "
                    "These are necessary conditions for all parties staying in step for every circuit, role assignment and batch count; "
                    "functional correctness of garbling/evaluation is value-level and not decided.",
@@ -148,43 +151,95 @@ def run(ctx, res):
     else:
         res.bad("C01.a", "sibling-agreement", "the preprocessing walkers disagree on random-share consumption per op: %s" % sig)
     # ------------------------------------------------------------------ (b) batch sizes
-    methods = {}
+    # Context methods, by what they read of the Context (own body + Context methods they call): a chunk
+    # size is public iff everything it is computed from is in PUBLIC_FIELDS (identical at all parties)
+    PUBLIC_FIELDS = {"num_inputs", "num_and_ops"}
+    CTX_M = "polytune::mpc::protocol::Context"
+    own_reads = {}
+    calls_of = {}
     for k, b in fg.bodies.items():
-        if b.owner.startswith("polytune::mpc::protocol::Context") and b.owner.endswith("_batch_size") and b.id == b.owner:
-            reads = set()
-            for blk in b.blocks:
-                for s in blk["s"]:
-                    if s["k"] != "assign":
-                        continue
-                    for o in [s["r"].get("o"), s["r"].get("a"), s["r"].get("b")] + ([{"k": "copy", "p": s["r"]["p"]}] if s["r"]["k"] in ("ref", "discr") else []):
-                        if o and o["k"] != "const":
-                            for e in o["p"]["pr"]:
-                                if isinstance(e, dict) and e.get("a") == CTX:
-                                    reads.add(e["n"])
-                for a in (blk["t"].get("args") or []):
-                    if a["k"] != "const":
-                        for e in a["p"]["pr"]:
+        if not b.owner.startswith(CTX_M) or b.krate != "polytune":
+            continue
+        reads = own_reads.setdefault(b.owner, set())
+        cs = calls_of.setdefault(b.owner, set())
+        for blk in b.blocks:
+            for s in blk["s"]:
+                if s["k"] != "assign":
+                    continue
+                for o in [s["r"].get("o"), s["r"].get("a"), s["r"].get("b")] + ([{"k": "copy", "p": s["r"]["p"]}] if s["r"]["k"] in ("ref", "discr") else []):
+                    if o and o["k"] != "const":
+                        for e in o["p"]["pr"]:
                             if isinstance(e, dict) and e.get("a") == CTX:
                                 reads.add(e["n"])
-            methods[b.owner.rsplit("::", 1)[-1]] = reads
-            if reads <= {"num_inputs", "num_and_ops"} and reads:
-                res.ok("C01.b", "%s|reads" % b.owner.rsplit("::", 1)[-1], fl(b.span), "depends only on %s (public, identical at every party)" % sorted(reads))
-            else:
-                res.bad("C01.b", "%s|reads" % b.owner.rsplit("::", 1)[-1], "batch size depends on %s: parties with different roles / settings would chunk differently" % sorted(reads - {"num_inputs", "num_and_ops"}), fl(b.span))
-    res.need("C01.b", "batch_size_methods", len(methods), 2, "Context::*_batch_size methods")
+            for a in (blk["t"].get("args") or []):
+                if a["k"] != "const":
+                    for e in a["p"]["pr"]:
+                        if isinstance(e, dict) and e.get("a") == CTX:
+                            reads.add(e["n"])
+            if blk["t"]["k"] == "call":
+                for n in callee_names(blk["t"]):
+                    if n.startswith(CTX_M) and n != b.owner:
+                        cs.add(n)
+
+    def method_reads(owner, seen=None):
+        seen = seen or set()
+        if owner in seen:
+            return set()
+        seen.add(owner)
+        r = set(own_reads.get(owner, ()))
+        for c in calls_of.get(owner, ()):
+            r |= method_reads(c, seen)
+        return r
+    methods = {}
 
     def batch_sources(k, o):
+        """names of the Context methods a size is computed from ('<literal>' if only constants)."""
         if o["k"] == "const":
             return {"<literal>"}
         si = SliceInfo(fg, fg.operand_nodes(k, o))
         m = set()
         for (bb, bi2, t2) in si.calls:
             for n in callee_names(t2):
-                if n.startswith("polytune::mpc::protocol::Context") and n.endswith("_batch_size"):
+                if n.startswith(CTX_M) and n in own_reads:
                     m.add(n.rsplit("::", 1)[-1])
+                    methods[n.rsplit("::", 1)[-1]] = method_reads(n)
+        # a method called by another method of the set is part of that one
+        full = {n for n in own_reads if n.rsplit("::", 1)[-1] in m}
+
+        def reach(o_, seen):
+            for c in calls_of.get(o_, ()):
+                if c not in seen:
+                    seen.add(c)
+                    reach(c, seen)
+            return seen
+        inner = set()
+        for n in full:
+            inner |= {c.rsplit("::", 1)[-1] for c in reach(n, set())}
+        m -= inner
+        direct = set(si.field_names(CTX)) - PUBLIC_FIELDS
+        for f in direct:
+            m.add("<field %s>" % f)
         if not m and si.literals:
             m.add("<literal>")
         return m
+
+    def private_reads(src):
+        out = set()
+        for x in src:
+            if x.startswith("<field "):
+                out.add(x[7:-1])
+            elif x in methods:
+                out |= methods[x] - PUBLIC_FIELDS
+        return out
+    # sizing methods: the Context methods some chunk consumer (chunk_size_iter / chunks) takes its size from
+    sizing = set()
+    for k, b in engine_bodies(fg):
+        if not b.owner.startswith("polytune::mpc::protocol::"):
+            continue
+        for bi, t in b.calls():
+            names = callee_names(t)
+            if any(n.endswith("protocol::chunk_size_iter") for n in names) or any(n.endswith("FileOrMemBuf::<T>::chunks") for n in names):
+                sizing |= {x for x in batch_sources(k, t["args"][1]) if not x.startswith("<")}
     n_flush = 0
     n_chunk = 0
     for k, b in engine_bodies(fg):
@@ -198,7 +253,7 @@ def run(ctx, res):
                         if y["k"] == "const" or x["k"] == "const":
                             continue
                         src = batch_sources(k, y)
-                        if not (src - {"<literal>"}):
+                        if not (src & sizing):
                             continue
                         # x is a len() of a chunk buffer
                         xs = SliceInfo(fg, fg.operand_nodes(k, x))
@@ -213,6 +268,8 @@ def run(ctx, res):
                             res.bad("C01.b", inst, "flush condition is `len %s bound`, not `len >= bound`: chunks would not have exactly the batch size the reader expects" % op, where(b, bi, si_))
                         elif len(src) != 1:
                             res.bad("C01.b", inst, "flush bound mixes sources %s" % sorted(src), where(b, bi, si_))
+                        elif private_reads(src):
+                            res.bad("C01.b", inst, "the flush bound Context::%s() depends on %s, which is not the same at every party: writer and reader would chunk differently" % (list(src)[0], sorted(private_reads(src))), where(b, bi, si_))
                         else:
                             res.ok("C01.b", inst, where(b, bi, si_), "len >= Context::%s()" % list(src)[0])
         for bi, t in b.calls():
@@ -222,14 +279,26 @@ def run(ctx, res):
                 arg = t["args"][1]
                 src = batch_sources(k, arg)
                 inst = "%s|%s@%s" % (b.owner.rsplit("::", 1)[-1], names[0].rsplit("::", 1)[-1], fl(t["sp"]).rsplit(":", 1)[-1])
-                if src and "<literal>" not in src and len(src) == 1:
-                    res.ok("C01.b", inst, where(b, bi), "chunk size from Context::%s()" % list(src)[0])
+                if src and "<literal>" not in src and len(src) == 1 and private_reads(src):
+                    res.bad("C01.b", inst, "the chunk size Context::%s() depends on %s, which is not the same at every party: writer and reader would chunk differently" % (list(src)[0], sorted(private_reads(src))), where(b, bi))
+                elif src and "<literal>" not in src and len(src) == 1:
+                    res.ok("C01.b", inst, where(b, bi), "chunk size from Context::%s(), which reads only %s" % (list(src)[0], sorted(methods.get(list(src)[0], ()))))
                 else:
                     res.bad("C01.b", inst, "chunk size does not come from a Context batch-size method (%s): reader and writer would disagree" % (sorted(src) or "unknown"), where(b, bi))
+    for mname, reads in sorted(methods.items()):
+        if mname not in sizing:
+            continue
+        if reads <= PUBLIC_FIELDS and reads:
+            res.ok("C01.b", "%s|reads" % mname, "", "depends only on %s (public, identical at every party)" % sorted(reads))
+        else:
+            res.bad("C01.b", "%s|reads" % mname, "a batch / chunk size depends on %s: parties with different roles / settings would chunk differently" % sorted(reads - PUBLIC_FIELDS))
+    res.need("C01.b", "batch_size_methods", len(sizing), 2, "Context methods that chunk / batch sizes are computed from")
     res.need("C01.b", "flush_comparisons", n_flush, 3, "chunk flush comparisons `len >= batch size`")
     res.need("C01.b", "chunk_size_consumers", n_chunk, 3, "chunk_size_iter / chunks consumers of a batch size")
     # writer / reader pairs use the same method
     # (garble: sender flush, receiver chunk_size_iter, evaluator table-share flush; init_and_shares/gen_auth_bits)
+    # ------------------------------------------------------------------ (d) accumulate once per register
+    accumulate_once(fg, res)
     # ------------------------------------------------------------------ (c) literal party indices
     n_idx = 0
     bad = 0
@@ -269,3 +338,137 @@ def run(ctx, res):
     res.floor("party_index_positions", n_idx, 30)
     if not bad:
         res.ok("C01.c", "party-indices", "", "%d party-index positions (channel peers, xor_key, per-party vectors): none is a literal" % n_idx)
+
+
+REG = "garble_lang::register_circuit::Reg"
+SET_ITERS = ("alloc::collections::btree::set::Iter", "alloc::collections::btree::set::IntoIter", "std::collections::hash::set::Iter",
+             "std::collections::hash::set::IntoIter", "hashbrown::set::Iter", "core::ops::range::Range<")
+
+
+def _origin(b, o, depth=0):
+    """[(local, field path)] places an index operand is a plain copy / cast of, up to and including the
+    first projected place."""
+    if o is None or o["k"] == "const" or depth > 12:
+        return []
+    pl = o["p"]
+    path = tuple(e.get("n") or str(e.get("f", "")) for e in pl["pr"] if isinstance(e, dict) and ("n" in e or "f" in e))
+    if pl["pr"] and path:
+        return [(pl["l"], path)]
+    out = [(pl["l"], ())]
+    d = defs_of(b, pl["l"])
+    if len(d) == 1 and d[0][1] != "t":
+        r = d[0][2]
+        if r["k"] in ("use", "cast") and r.get("o") and r["o"]["k"] != "const":
+            out += _origin(b, r["o"], depth + 1)
+    return out
+
+
+def _same_place(w, r):
+    for (lw, pw) in w:
+        for (lr, pr_) in r:
+            if lw == lr and (pw[:len(pr_)] == pr_ or pr_[:len(pw)] == pw):
+                return True
+    return False
+
+
+def _aliases(b, l):
+    """locals that are `&`/`&mut`/deref-call results of local l (one body, shallow)."""
+    out = {l}
+    changed = True
+    while changed:
+        changed = False
+        for blk in b.blocks:
+            for st in blk["s"]:
+                if st["k"] == "assign" and not st["p"]["pr"] and st["p"]["l"] not in out:
+                    r = st["r"]
+                    src = r["p"]["l"] if r["k"] in ("ref", "rawptr") else (r["o"]["p"]["l"] if r["k"] == "use" and r["o"]["k"] != "const" else None)
+                    if src in out:
+                        out.add(st["p"]["l"])
+                        changed = True
+            t = blk["t"]
+            if t["k"] == "call" and t["args"] and t["args"][0]["k"] != "const" and t["args"][0]["p"]["l"] in out and t["d"]["l"] not in out:
+                cn = callee_names(t)
+                if cn and cn[-1].rsplit("::", 1)[-1] in ("deref", "deref_mut", "as_slice", "as_mut_slice"):
+                    out.add(t["d"]["l"])
+                    changed = True
+    return out
+
+
+def accumulate_once(fg, res):
+    """C01.d: a register-indexed slot that is updated from its own previous value (`x[r] = f(x[r], ..)`,
+    e.g. XOR-ing the other parties' mask shares into the output wire) inside a loop over registers
+    must be visited once per register: the loop iterates a set (BTreeSet / HashSet), or a Vec that is
+    sorted and dedup-ed.  circ.output_regs may name a register several times, at any positions."""
+    n = 0
+    for k, b in engine_bodies(fg):
+        if not b.owner.startswith("polytune::mpc::protocol::"):
+            continue
+        for bi, t in b.calls():
+            names = callee_names(t)
+            if not names or not any("IndexMut<%s>" % REG in x for x in names) or bi not in b.live_blocks():
+                continue
+            ptr = t["d"]["l"]
+            cont = root_local(b, t["args"][0])
+            if cont is None:
+                continue
+            # the value stored through the returned reference
+            stored = []
+            for bj, blk in enumerate(b.blocks):
+                for st in blk["s"]:
+                    if st["k"] == "assign" and st["p"]["l"] == ptr and st["p"]["pr"] and st["r"]["k"] in ("use", "agg", "bin"):
+                        ops = [st["r"].get("o"), st["r"].get("a"), st["r"].get("b")] + list(st["r"].get("ops") or [])
+                        for o in ops:
+                            if o and o["k"] != "const":
+                                stored += fg.operand_nodes(k, o)
+            if not stored:
+                continue
+            back = fg.backward(stored, node_ok=lambda x: x[0] == k, edge_ok=lambda e: e.kind not in ("alias", "alias_fb", "lcall", "mutarg2"))
+            if not any(x[1] == cont for x in back):
+                continue   # plain overwrite
+            # ... of the *same slot*: some read of the container in that slice is keyed by the same place
+            widx = _origin(b, t["args"][1])
+            same = False
+            bl = {x[1] for x in back}
+            for cbi, ct in b.calls():
+                cn = callee_names(ct)
+                tl = cn[-1].rsplit("::", 1)[-1] if cn else ""
+                if tl in ("get", "index", "get_mut", "index_mut") and cbi != bi and len(ct["args"]) == 2 and ct["d"]["l"] in bl and ct["args"][0]["k"] != "const" and root_local(b, ct["args"][0]) in _aliases(b, cont):
+                    ridx = _origin(b, ct["args"][1])
+                    if _same_place(widx, ridx):
+                        same = True
+            if not same:
+                continue
+            # self-dependent update keyed by a register: which loop yields the register?
+            idx = t["args"][1]
+            if idx["k"] == "const":
+                continue
+            iback = fg.backward(fg.operand_nodes(k, idx), node_ok=lambda x: x[0] == k, edge_ok=lambda e: e.kind in ("copy", "ref", "base2field", "field2whole") or (e.kind == "call" and (e.info or {}).get("names") and e.info["names"][-1].rsplit("::", 1)[-1] in ("next", "copied", "cloned", "deref")))
+            its = []
+            for cbi, ct in b.calls():
+                cn = callee_names(ct)
+                if cn and cn[0].endswith("Iterator::next") and ct["d"]["l"] in {x[1] for x in iback} and ct["args"] and ct["args"][0]["k"] != "const":
+                    its.append((cbi, ct["args"][0]["p"]["ty"], ct))
+            if not its:
+                continue   # not keyed by a loop element (single update)
+            n += 1
+            var = b.locals[cont]["name"] or "?"
+            inst = "%s|%s[reg]" % (b.owner.rsplit("::", 1)[-1], var)
+            ity = its[0][1]
+            if any(s_ in ity for s_ in SET_ITERS):
+                res.ok("C01.d", inst, where(b, bi), "updated from its own previous value once per register: the loop iterates a set (%s)" % ity.split("<")[0].replace("&mut ", ""))
+                continue
+            # a Vec: must be sorted and dedup-ed before the loop
+            vback = fg.backward(fg.operand_nodes(k, its[0][2]["args"][0]), node_ok=lambda x: x[0] == k, edge_ok=lambda e: e.kind in ("copy", "ref", "base2field", "field2whole") or (e.kind == "call" and (e.info or {}).get("names") and e.info["names"][-1].rsplit("::", 1)[-1] in ("iter", "into_iter", "deref", "as_slice", "copied", "cloned")))
+            vl = {x[1] for x in vback}
+            ops_ = set()
+            for cbi, ct in b.calls():
+                cn = callee_names(ct)
+                tl = cn[-1].rsplit("::", 1)[-1] if cn else ""
+                if tl in ("sort", "sort_unstable", "sort_by_key", "sort_unstable_by_key", "dedup", "dedup_by_key") and ct["args"] and ct["args"][0]["k"] != "const" and root_local(b, ct["args"][0]) in vl and b.dominates(cbi, its[0][0]):
+                    ops_.add("sort" if tl.startswith("sort") else "dedup")
+            if ops_ == {"sort", "dedup"}:
+                res.ok("C01.d", inst, where(b, bi), "updated once per register: the loop iterates a sorted and dedup-ed vector")
+            else:
+                res.bad("C01.d", inst, "`%s[reg]` is updated from its own previous value inside a loop over registers that is not known to be duplicate-free (iterator %s%s): a register named twice is accumulated twice (for XOR: cancels)"
+                        % (var, ity[:70], "; dedup() alone only removes adjacent repeats" if ops_ == {"dedup"} else ""), where(b, bi))
+    res.need("C01.d", "self_dependent_register_updates", n, 1, "register-indexed slots updated from their previous value inside a loop")
